@@ -1,10 +1,12 @@
 package main
 
 import (
+	"archive/zip"
 	"bytes"
 	"crypto/sha256"
 	"encoding/json"
 	"fmt"
+	"hash/crc32"
 	"os"
 	"os/exec"
 	"reflect"
@@ -212,6 +214,12 @@ func genC05(r *Rng, tier string, i int) map[string]any {
 		if r.Bool() {
 			z := zipOf([]member{{"agency.txt", "agency_name\nx\n"}}, false)
 			copy(b, z[:minInt(len(z), len(b))])
+		}
+		if r.P(1, 4) {
+			// a well-formed archive whose members cannot be opened or read: an unknown compression method, a
+			// deflate stream that is garbage, a member whose recorded size or checksum is wrong
+			f := genFeed(r, feedOpts{})
+			b = brokenZip(r, f.members(r, false, nil))
 		}
 		return map[string]any{"kind": "none", "what": "zipbytes", "bytes": bstr(string(b))}
 	default: // realtime: arbitrary and mutated bytes, every extension configuration
@@ -612,3 +620,37 @@ func (p *csvProp) Check(in map[string]any, model json.RawMessage) Verdict {
 }
 
 func init() { props["CSV"] = func() Prop { return &csvProp{} } }
+
+// brokenZip writes a structurally valid archive in which one member is unreadable.
+func brokenZip(r *Rng, ms []member) []byte {
+	var buf bytes.Buffer
+	w := zip.NewWriter(&buf)
+	bad := r.Intn(len(ms))
+	kind := r.Intn(3)
+	for i, m := range ms {
+		if i != bad {
+			f, _ := w.CreateHeader(&zip.FileHeader{Name: m.name, Method: zip.Store})
+			f.Write([]byte(m.data))
+			continue
+		}
+		h := &zip.FileHeader{Name: m.name, UncompressedSize64: uint64(len(m.data)), CompressedSize64: uint64(len(m.data))}
+		switch kind {
+		case 0:
+			h.Method = 99 // no decompressor registered: Open fails
+			h.CRC32 = crc32.ChecksumIEEE([]byte(m.data))
+		case 1:
+			h.Method = zip.Deflate // the bytes are not a deflate stream: Read fails
+			h.CRC32 = crc32.ChecksumIEEE([]byte(m.data))
+		default:
+			h.Method = zip.Store // wrong checksum: the last Read fails
+			h.CRC32 = 12345
+		}
+		f, err := w.CreateRaw(h)
+		if err != nil {
+			panic(err)
+		}
+		f.Write([]byte(m.data))
+	}
+	w.Close()
+	return buf.Bytes()
+}
